@@ -411,6 +411,35 @@ def rule_r6(facts, rep, rid="C20-R6"):
             rep.violation(rid, f.def_ + "|delegates-to-same-link", "NodeIter::%s of GraphNodePointer reads %s" % (link, wrong or "nothing"), f.loc)
 
 
+def rule_r8(facts, rep, rid="C20-R8"):
+    f = facts.fn("Server::handle_rename")
+    rep.saw_fn(f)
+    c = ctx(f)
+    aff = None
+    for x in fb.walk(f.body):
+        if x.get("k") == "let" and x.get("init") is not None and any(
+                y.get("k") == "mcall" and (fb.callee(y) or "").endswith(("Graph::get_block_references_to", "Graph::get_inline_references_to")) for y in fb.walk(x["init"])):
+            aff = x
+            break
+    key = f.def_ + "|affected-keys-unique"
+    if aff is None:
+        rep.anchor_missing(rid, "the `let` in handle_rename that collects the referrers of the renamed key")
+        return
+    names = []
+    r = aff["init"]
+    while r is not None and r.get("k") == "mcall":
+        names.append(r["name"])
+        r = r["recv"]
+    names.reverse()
+    ty = str(aff["init"].get("ty") or "")
+    ok = "unique" in names or "HashSet" in ty or "BTreeSet" in ty or ("dedup" in names and any(n in names[:names.index("dedup")] for n in ("sorted", "sort", "sorted_unstable")))
+    if ok:
+        rep.ok(rid, key, "chain: %s" % " -> ".join(n for n in names if n in ("unique", "sorted", "dedup", "collect", "collect_vec")), loc(f, aff))
+    else:
+        rep.violation(rid, key, "the affected keys are not made unique as a set (chain: %s): a note that refers to the renamed one twice (a block reference and an inline link) is rebuilt "
+                      "twice in the patch graph - two live trees claim one key, and the edit carries two whole-file replacements for the same file" % " -> ".join(names[-8:]), loc(f, aff))
+
+
 def run(facts, rep, tier):
     rep.rule("C20-R1", "Encapsulation: graph-linking primitives (Graph::builder, GraphBuilder::{set_id,set_insert,link_node_id}, "
              "Arena::{set_node,node_mut,delete_branch}, Graph::{node_mut,add_graph_node}, GraphNode::{set_next_id,set_child_id}) are called only "
@@ -436,3 +465,6 @@ def run(facts, rep, tier):
     rule_r3b(facts, rep)
     rep.rule("C20-R7", "= C04-R4: one live root per note - Graph::update_key tombstones the previous root (looked up unconditionally in `keys`) before the new version is built.")
     c04.rule_r4(facts, rep, "C20-R7")
+    rep.rule("C20-R8", "The rename patch graph is a forest too: Patch::build_key is entered once per affected note - the affected keys are made unique as a set (`unique()`, a set, or "
+             "`sorted()` before `dedup()`), not by dropping adjacent repeats of an unsorted sequence.")
+    rule_r8(facts, rep)
